@@ -36,6 +36,28 @@ var properties = map[string]Property{
 		},
 		TrustedBase: []string{"go/types + go/ssa (x/tools v0.29.0)", "the regions engine (/verif/checker/internal/regions, about 1.3 kLOC)", "the library-call table in regions/call.go", "Go memory safety (no unsafe/cgo in the package: rule G-IMPORTS)"},
 	},
+	"C05": {
+		Level: "other",
+		Rules: []string{"R-EVAL-WRITE", "R-RESULT-FRESH", "R-TREE-CLOSED", "R-GLOBALS", "O-POOL", "R-ENGINE", "G-IMPORTS"},
+		Explanation: "Decided (necessary core): evaluation has no memory between calls. Every effect instruction reachable from the evaluation closure writes only objects allocated during that evaluation or pooled scratch objects (never the parsed tree, a global, Config memory); the returned slice is an allocation of the call that no instruction stores into longer-lived memory; the returned function reaches no parser-owned, Config or pooled memory and no persistent parser state reaches an earlier tree; every package-level variable is a sync primitive, the lock-protected parser or never written after init; pooled objects are released on every path, never used after a direct release, never stored outside local variables, and result sinks are truncated before Put. Not decided: that two calls on equal documents compute equal results and equality with a fresh Retrieve (behavioural).",
+		Assumptions: []string{"sentinel exemption: the two package-level one-element lists may reach list parameters of validators/comparators/logical operators; premises (assigned only in init, never sliced/appended) are re-verified each run; that no comparator runs with a sentinel as left list on a feasible path is argued in DESIGN.md §3.A, not checked"},
+	},
+	"C06": {
+		Level: "other",
+		Rules: []string{"R-LOCK", "R-GLOBALS", "R-EVAL-WRITE", "R-TREE-CLOSED", "O-POOL", "R-ENGINE", "G-IMPORTS"},
+		Explanation: "Decided (necessary core; an effect/lockset argument, not a schedule exploration): the parser mutex is locked exactly once, in Parse's entry block, the deferred closure that unlocks it is registered immediately afterwards, Unlock dominates every return of that closure and nothing that can panic precedes it; every function that can hold parser-owned memory is reachable from user-callable entry points only through Parse; every other package-level variable is a sync primitive or never written after init; evaluation writes no memory shared between calls; pooled objects are private between acquire and release. Not decided: interleavings as such; races inside user functions or on documents the caller mutates.",
+		Assumptions: []string{"sync.Mutex and sync.Pool are correct; a sync.Pool object obtained by Get is private until Put"},
+	},
+	"C07": {
+		Level: "other",
+		Rules: []string{"O-MAPRANGE", "O-KEYSOURCE", "O-POOL", "O-LIFO", "O-SEQ", "R-EVAL-WRITE", "G-IMPORTS"},
+		Explanation: "Decided (nearly the whole property, because order is structural in this code): every map range reachable during evaluation only stores the keys at consecutive indices of a slice resliced to len(map), and every path from the end of that loop to the function's return applies an ascending byte-wise string sort to that slice or passes the false edge of len(map) > 1; callers of the key accessor only read the slice, index the same map with its elements and release it after the loop (no use after release); every loop in the evaluation steps is a complete ascending loop (or the worklist's complete descending push loop) whose only exit is the loop condition; recursive descent takes W[len-1], shrinks W[:len-1], pushes children from len-1 down to 0 and never applies the next step after pushing. reflect.MapKeys/MapRange are outside the modelled reflect subset (G-IMPORTS). Not decided: nothing of substance; assumes sort.StringSlice.Sort sorts byte-wise.",
+	},
+	"C19": {
+		Level: "other",
+		Rules: []string{"R-RESET", "R-PEGRESET", "R-CONFIG", "R-TREE-CLOSED", "R-LOCK", "R-GLOBALS", "R-ENGINE", "G-IMPORTS"},
+		Explanation: "Decided (necessary core): every field of the global parser's action state that any Parse-phase function writes is zeroed by the deferred closure on every exit of Parse (whole-struct store of the zero value, or field-complete), also on panic; every matcher variable captured by rule closures and written during matching is assigned by the generated reset closure on every path (token tree: overwritten from index 0 and trimmed on success); pointers to the caller's Config are stored only into that action state; the returned function reaches no Config maps and no parser-owned memory, and persistent parser memory reaches no tree; no package-level variable other than the lock-protected parser is written after init (so no cache keyed by path can exist). Not decided: equality of outcomes across histories as such.",
+	},
 }
 
 func propIDs() []string {
